@@ -166,7 +166,13 @@ pub enum Step {
     /// the first are left incomplete by the server, finish() is called while such a page is in flight
     PagedEarly(usize, i32, usize, bool),
     TimeoutSingle(bool),
-    TimeoutStream(usize, usize),
+    /// (items, sent before the stall, whether the rest arrives late (700 ms) or never)
+    TimeoutStream(usize, usize, bool),
+    /// search() (which never calls finish()) timing out mid-stream; the server stays silent afterwards
+    TimeoutSearchCall(usize, usize),
+    /// stream that times out and is then dropped without finish()... excluded by the property; not generated
+    /// abandon issued with a zero timeout (its caller gives up at once) against an in-flight operation
+    AbandonInflightZeroTimeout,
     AbandonFinished,
     AbandonTimedOut,
     AbandonInflight,
@@ -185,7 +191,10 @@ impl Step {
             Step::Paged(_, _, true) => "paged-search-behind-entries-only",
             Step::PagedEarly(..) => "paged-search-finished-early-on-a-later-page",
             Step::TimeoutSingle(_) => "single-op-timeout",
-            Step::TimeoutStream(..) => "stream-timeout",
+            Step::TimeoutStream(_, _, true) => "stream-timeout-rest-arrives-late",
+            Step::TimeoutStream(_, _, false) => "stream-timeout-server-silent-afterwards",
+            Step::TimeoutSearchCall(..) => "search()-timeout-server-silent-afterwards",
+            Step::AbandonInflightZeroTimeout => "abandon-with-zero-timeout-of-inflight-op",
             Step::AbandonFinished => "abandon-of-finished-op",
             Step::AbandonTimedOut => "abandon-of-timed-out-op",
             Step::AbandonInflight => "abandon-of-inflight-op",
@@ -218,11 +227,15 @@ pub fn gen_step(rng: &mut Rng) -> Step {
         7 => Step::TimeoutSingle(rng.bool()),
         8 => {
             let n = 1 + rng.usize(6);
-            Step::TimeoutStream(n, rng.usize(n + 1))
+            match rng.below(3) {
+                0 => Step::TimeoutStream(n, rng.usize(n + 1), true),
+                1 => Step::TimeoutStream(n, rng.usize(n + 1), false),
+                _ => Step::TimeoutSearchCall(n, rng.usize(n + 1)),
+            }
         }
         9 => Step::AbandonFinished,
         10 => Step::AbandonTimedOut,
-        11 => Step::AbandonInflight,
+        11 => if rng.bool() { Step::AbandonInflight } else { Step::AbandonInflightZeroTimeout },
         _ => {
             let n = 1 + rng.usize(6);
             Step::AbandonInflightStream(n, rng.usize(n + 1))
@@ -308,9 +321,33 @@ pub async fn run_step(ldap: &mut Ldap, other: &mut Ldap, step: &Step, tok: u64, 
             let o = invoke(ldap, &Call::Delete { dn: format!("op={},b={}", tok, if *late { "late400" } else { "silent" }) }).await;
             obs.outcome = o.class();
         }
-        Step::TimeoutStream(n, k) => {
+        Step::TimeoutStream(n, k, late) => {
             ldap.with_timeout(Duration::from_millis(if tok % 3 == 0 { 0 } else { 100 }));
-            obs.outcome = read_all(ldap, vec![], &format!("op={},b=hold{}:{}:700", tok, n, k), None).await;
+            let b = if *late { format!("hold{}:{}:700", n, k) } else { format!("hold{}:{}", n, k) };
+            obs.outcome = read_all(ldap, vec![], &format!("op={},b={}", tok, b), None).await;
+        }
+        Step::TimeoutSearchCall(n, k) => {
+            ldap.with_timeout(Duration::from_millis(100));
+            let o = Caught::new(ldap.search(&format!("op={},b=hold{}:{}", tok, n, k), Scope::Subtree, "(a=b)", vec!["*"])).await;
+            obs.outcome = match o {
+                Ok(Ok(r)) => format!("items={}:rc={}", r.0.len(), r.1.rc),
+                Ok(Err(e)) => format!("err:{}", world::err_class(&e)),
+                Err(p) => format!("panic:{}", p.site()),
+            };
+        }
+        Step::AbandonInflightZeroTimeout => {
+            let mut l2 = ldap.clone();
+            let dn = format!("op={},b=silent", tok);
+            let waiter = tokio::spawn(async move { world::watchdog(invoke(&mut l2, &Call::Delete { dn })).await.unwrap_or(Outcome::Hung) });
+            world::settle().await;
+            let id = ldap.verif_id_table().0;
+            // the abandon's own caller gives up immediately; the request is queued all the same
+            other.with_timeout(Duration::from_millis(0));
+            let _ = invoke(other, &Call::Abandon(id)).await;
+            world::settle().await;
+            obs.abandon_target = Some(id);
+            obs.outcome = "Ok".into();
+            obs.waiter = Some(waiter.await.map(|o| o.class()).unwrap_or_else(|_| "task-died".into()));
         }
         Step::AbandonFinished => {
             let id = if *last_finished > 0 { *last_finished } else { 1 };
